@@ -1,2 +1,351 @@
-(* C10: reference creation against resolution -- proofs. *)
-From UP Require Import Base.Chars Model.Uri.
+(* C10: reference creation (Model/Shorten.v, remove_base = uriRemoveBaseUriMm) against reference
+   resolution (Model/Resolve.v, add_base = uriAddBaseUriExMm) -- proofs.
+
+   Contents
+     1. error codes, the schemes-differ clause                       (remove_base_rel_base ...)
+     2. what is left out of the reference                            (rb_scheme_omitted ...)
+     3. equals_authority as equality of fields                       (equals_authority_fields)
+     4. the common-prefix walk and the dot-segment walk              (skip_common_split, walk_roundtrip)
+     5. the round trip under walk_ok                                 (roundtrip_walk ...)
+     6. the round trip in the cases without a walk                   (roundtrip_copy ...)
+     7. witnesses against the unrestricted round trip                (roundtrip_refuted ...) *)
+From Coq Require Import List NArith ZArith Bool Lia String.
+From UP Require Import Base.Chars Model.Uri Model.Common Model.Compare Model.Resolve Model.Shorten
+  Model.Recompose Spec.NormalWf Proofs.DotSegments Proofs.ResolveProofs Proofs.Findings10.
+Import ListNotations.
+Local Open Scope N_scope.
+
+(* ---------------------------------------------------------------- 1. error codes, other scheme *)
+Lemma remove_base_rel_base m src base : scheme base = None ->
+  remove_base m src base = (URI_ERROR_REMOVEBASE_REL_BASE, empty_uri).
+Proof. intros Hb. unfold remove_base, remove_base_impl. rewrite Hb. reflexivity. Qed.
+
+Lemma remove_base_rel_source m src base : scheme base <> None -> scheme src = None ->
+  remove_base m src base = (URI_ERROR_REMOVEBASE_REL_SOURCE, empty_uri).
+Proof.
+  intros Hb Hs. unfold remove_base, remove_base_impl. rewrite Hs.
+  destruct (scheme base); [reflexivity|congruence].
+Qed.
+
+(* the body of uriRemoveBaseUriMm once both schemes are there *)
+Definition rb_body (m : bool) (src base : uri) : uri :=
+  let d := empty_uri in
+  if negb (range_eqb (scheme src) (scheme base)) then
+    copy_path (copy_authority (set_scheme (scheme src) d) src) src
+  else if negb (equals_authority src base) then
+    let d := if negb (is_host_set src) && is_host_set base then set_scheme (scheme src) d else d in
+    copy_path (copy_authority d src) src
+  else if m then
+    fix_ambiguity (set_absolutePath true (copy_path d src))
+  else
+    let '(s, b) := skip_common (pathSegs src) (pathSegs base) in
+    let ups := parents b in
+    let naked := match ups with [] => true | _ => false end in
+    set_pathSegs (ups ++ rest_segments naked s) d.
+
+Lemma remove_base_nf m src base : scheme src <> None -> scheme base <> None ->
+  remove_base m src base
+  = (URI_SUCCESS, set_fragment (fragment src) (set_query (query src) (rb_body m src base))).
+Proof.
+  intros Hs Hb. unfold remove_base, remove_base_impl, rb_body.
+  destruct (scheme base); [|congruence]. destruct (scheme src); [|congruence]. reflexivity.
+Qed.
+
+Lemma remove_base_success m src base : scheme src <> None -> scheme base <> None ->
+  fst (remove_base m src base) = URI_SUCCESS.
+Proof. intros Hs Hb. rewrite (remove_base_nf m src base Hs Hb). reflexivity. Qed.
+
+(* query and fragment of the reference are always those of the source *)
+Lemma rb_query_fragment m src base : scheme src <> None -> scheme base <> None ->
+  query (snd (remove_base m src base)) = query src
+  /\ fragment (snd (remove_base m src base)) = fragment src.
+Proof. intros Hs Hb. rewrite (remove_base_nf m src base Hs Hb). split; reflexivity. Qed.
+
+Lemma components_copy d src : one_kind src = true ->
+  components (set_fragment (fragment src) (set_query (query src)
+                (copy_path (copy_authority (set_scheme (scheme src) d) src) src)))
+  = components src.
+Proof.
+  destruct src as [sc ui ht i4 i6 ifu po ps qu fr ab ow]. unfold one_kind, components. usimpl.
+  destruct i4, i6, ifu; intros H; try discriminate H; reflexivity.
+Qed.
+
+(* without the one-kind hypothesis: the fields as uriCopyAuthority leaves them *)
+Lemma components_copy_gen d src :
+  components (set_fragment (fragment src) (set_query (query src)
+                (copy_path (copy_authority (set_scheme (scheme src) d) src) src)))
+  = components (copy_authority src src).
+Proof. destruct src as [sc ui ht i4 i6 ifu po ps qu fr ab ow]. reflexivity. Qed.
+
+(* schemes differ: the reference is the source unchanged *)
+Lemma remove_base_other_scheme m src base : scheme src <> None -> scheme base <> None ->
+  range_eqb (scheme src) (scheme base) = false ->
+  fst (remove_base m src base) = URI_SUCCESS
+  /\ components (snd (remove_base m src base)) = components (copy_authority src src)
+  /\ (one_kind src = true -> components (snd (remove_base m src base)) = components src).
+Proof.
+  intros Hs Hb Hd. rewrite (remove_base_nf m src base Hs Hb). cbn [fst snd].
+  unfold rb_body. rewrite Hd. cbn [negb].
+  split; [reflexivity|]. split; [apply components_copy_gen|apply components_copy].
+Qed.
+
+(* ---------------------------------------------------------------- 2. what the reference omits *)
+Lemma scheme_fixamb u : scheme (fix_ambiguity u) = scheme u.
+Proof. rewrite fixamb_nf. reflexivity. Qed.
+Lemma abs_fixamb u : absolutePath (fix_ambiguity u) = absolutePath u.
+Proof. rewrite fixamb_nf. reflexivity. Qed.
+Lemma query_fixamb u : query (fix_ambiguity u) = query u.
+Proof. rewrite fixamb_nf. reflexivity. Qed.
+
+(* same scheme: the scheme is left out, unless the source has no host and the base has one
+   (a reference without scheme would then inherit the base's authority) *)
+Lemma rb_scheme_omitted m src base : scheme src <> None -> scheme base <> None ->
+  range_eqb (scheme src) (scheme base) = true ->
+  is_host_set src = true \/ is_host_set base = false \/ equals_authority src base = true ->
+  scheme (snd (remove_base m src base)) = None.
+Proof.
+  intros Hs Hb He Hr. rewrite (remove_base_nf m src base Hs Hb). cbn [snd]. usimpl.
+  unfold rb_body. rewrite He. cbn [negb].
+  destruct (equals_authority src base) eqn:Ea; cbn [negb].
+  - destruct m.
+    + rewrite scheme_fixamb. reflexivity.
+    + destruct (skip_common (pathSegs src) (pathSegs base)) as [s b]. reflexivity.
+  - destruct Hr as [Hr|[Hr|Hr]]; [rewrite Hr|rewrite Hr, andb_false_r|discriminate Hr]; reflexivity.
+Qed.
+
+(* ... and in that remaining case the reference is the source unchanged, scheme included *)
+Lemma rb_scheme_kept m src base : scheme src <> None -> scheme base <> None ->
+  range_eqb (scheme src) (scheme base) = true -> equals_authority src base = false ->
+  is_host_set src = false -> is_host_set base = true ->
+  components (snd (remove_base m src base)) = components src.
+Proof.
+  intros Hs Hb He Ea Hhs Hhb. rewrite (remove_base_nf m src base Hs Hb). cbn [snd].
+  unfold rb_body. rewrite He, Ea, Hhs, Hhb. cbn [negb andb].
+  apply components_copy.
+  unfold is_host_set in Hhs. unfold one_kind.
+  destruct (ip4 src), (ip6 src), (ipFuture src); try reflexivity;
+    rewrite ?orb_true_r in Hhs; discriminate Hhs.
+Qed.
+
+(* a base with a host text and a host-less source never have equal authorities *)
+Lemma equals_authority_hostless src base : is_host_set src = false -> hostText base <> None ->
+  equals_authority src base = false.
+Proof.
+  intros Hh Hb. unfold is_host_set in Hh. unfold equals_authority.
+  destruct (hostText src), (ip4 src), (ip6 src), (ipFuture src); try discriminate Hh.
+  destruct (hostText base); [|congruence]. rewrite andb_false_r. reflexivity.
+Qed.
+
+(* same scheme, other authority: scheme apart, everything is copied from the source *)
+Lemma rb_authority_kept m src base : scheme src <> None -> scheme base <> None ->
+  range_eqb (scheme src) (scheme base) = true -> equals_authority src base = false ->
+  let r := snd (remove_base m src base) in
+  auth_fields r = auth_fields (copy_authority src src)
+  /\ (one_kind src = true -> auth_fields r = auth_fields src)
+  /\ pathSegs r = pathSegs src /\ absolutePath r = absolutePath src
+  /\ query r = query src /\ fragment r = fragment src.
+Proof.
+  intros Hs Hb He Ea. rewrite (remove_base_nf m src base Hs Hb). cbn [snd].
+  unfold rb_body. rewrite He, Ea. cbn [negb]. cbv zeta.
+  destruct (negb (is_host_set src) && is_host_set base); repeat split;
+    try (destruct src as [sc ui ht i4 i6 ifu po ps qu fr ab ow]; reflexivity);
+    intros Hk; autorewrite with af_db; apply auth_fields_copy; exact Hk.
+Qed.
+
+(* same scheme, same authority (user info, host, port): no scheme and no authority at all *)
+Lemma rb_authority_omitted m src base : scheme src <> None -> scheme base <> None ->
+  range_eqb (scheme src) (scheme base) = true -> equals_authority src base = true ->
+  let r := snd (remove_base m src base) in
+  scheme r = None /\ auth_fields r = (None, None, None, None, None, None) /\ is_host_set r = false.
+Proof.
+  intros Hs Hb He Ea. rewrite (remove_base_nf m src base Hs Hb). cbn [snd].
+  unfold rb_body. rewrite He, Ea. cbn [negb]. cbv zeta.
+  destruct m.
+  - rewrite fixamb_nf. repeat split.
+  - destruct (skip_common (pathSegs src) (pathSegs base)) as [s b]. repeat split.
+Qed.
+
+(* domain-root mode: the source's path, made absolute (and guarded against a leading "//") *)
+Lemma rb_domain_root src base : scheme src <> None -> scheme base <> None ->
+  range_eqb (scheme src) (scheme base) = true -> equals_authority src base = true ->
+  let r := snd (remove_base true src base) in
+  absolutePath r = true /\ pathSegs r = fixamb_p false true (pathSegs src).
+Proof.
+  intros Hs Hb He Ea. rewrite (remove_base_nf true src base Hs Hb). cbn [snd].
+  unfold rb_body. rewrite He, Ea. cbn [negb]. cbv zeta.
+  rewrite fixamb_nf. split; reflexivity.
+Qed.
+
+(* the other mode: one ".." for every remaining base segment but the last, then the remaining source
+   segments (with "." in front when the path would begin with an empty segment or one with ":") *)
+Lemma rb_walk src base s b : scheme src <> None -> scheme base <> None ->
+  range_eqb (scheme src) (scheme base) = true -> equals_authority src base = true ->
+  skip_common (pathSegs src) (pathSegs base) = (s, b) ->
+  snd (remove_base false src base)
+  = set_fragment (fragment src) (set_query (query src)
+      (set_pathSegs (parents b ++ rest_segments (match parents b with [] => true | _ => false end) s) empty_uri)).
+Proof.
+  intros Hs Hb He Ea Hk. rewrite (remove_base_nf false src base Hs Hb). cbn [snd].
+  unfold rb_body. rewrite He, Ea, Hk. reflexivity.
+Qed.
+
+(* ---------------------------------------------------------------- 3. equals_authority on fields *)
+Definition onul (o : option text) : bool := match o with Some t => nonul t | None => true end.
+
+Lemma range_eqb_eq a b : onul a = true -> range_eqb a b = true -> a = b.
+Proof.
+  intros Hn H. destruct a as [x|], b as [y|]; try reflexivity; try discriminate H.
+  cbn [onul] in Hn. rewrite (range_eqb_text x y Hn) in H. apply text_eqb_true in H. rewrite H. reflexivity.
+Qed.
+
+Lemma bytes_eqb_eq a : forall b, bytes_eqb a b = true -> a = b.
+Proof.
+  induction a as [|x a IH]; intros b H; destruct b as [|y b]; try discriminate H; [reflexivity|].
+  cbn [bytes_eqb] in H. apply andb_true_iff in H. destruct H as [H1 H2]. apply N.eqb_eq in H1.
+  rewrite H1, (IH b H2). reflexivity.
+Qed.
+
+Lemma bytes_eqb_refl a : bytes_eqb a a = true.
+Proof. induction a as [|x a IH]; [reflexivity|]. cbn [bytes_eqb]. rewrite N.eqb_refl, IH. reflexivity. Qed.
+
+(* the host compared in the kind of the first URI: IPv4 octets, else IPv6 bytes, else the IPvFuture
+   text, else the host text *)
+Definition host_same (a b : uri) : Prop :=
+  match ip4 a with
+  | Some x => ip4 b = Some x
+  | None =>
+    match ip6 a with
+    | Some x => ip6 b = Some x
+    | None =>
+      match ipFuture a with
+      | Some f => ipFuture b = Some f
+      | None => hostText a = hostText b
+      end
+    end
+  end.
+
+Definition auth_nonul (a : uri) : bool :=
+  onul (userInfo a) && onul (portText a) && onul (hostText a) && onul (ipFuture a).
+
+Lemma equals_authority_fields a b : auth_nonul a = true ->
+  (equals_authority a b = true <-> userInfo a = userInfo b /\ portText a = portText b /\ host_same a b).
+Proof.
+  unfold auth_nonul. intros Hn.
+  apply andb_true_iff in Hn. destruct Hn as [Hn Hf]. apply andb_true_iff in Hn. destruct Hn as [Hn Hh].
+  apply andb_true_iff in Hn. destruct Hn as [Hu Hp].
+  unfold equals_authority, host_same. split.
+  - intros H. apply andb_true_iff in H. destruct H as [H H3]. apply andb_true_iff in H. destruct H as [H1 H2].
+    split; [exact (range_eqb_eq _ _ Hu H1)|]. split; [exact (range_eqb_eq _ _ Hp H2)|].
+    destruct (ip4 a) as [x|].
+    { destruct (ip4 b) as [y|]; [|discriminate H3]. rewrite (bytes_eqb_eq x y H3). reflexivity. }
+    destruct (ip6 a) as [x|].
+    { destruct (ip6 b) as [y|]; [|discriminate H3]. rewrite (bytes_eqb_eq x y H3). reflexivity. }
+    destruct (ipFuture a) as [f|] eqn:Ef.
+    { apply andb_true_iff in H3. destruct H3 as [_ H3]. symmetry. exact (range_eqb_eq _ _ Hf H3). }
+    exact (range_eqb_eq _ _ Hh H3).
+  - intros [H1 [H2 H3]]. rewrite <- H1, <- H2, !range_eqb_refl. cbn [andb].
+    destruct (ip4 a) as [x|]; [rewrite H3; apply bytes_eqb_refl|].
+    destruct (ip6 a) as [x|]; [rewrite H3; apply bytes_eqb_refl|].
+    destruct (ipFuture a) as [f|]; [rewrite H3; cbn [is_some andb]; apply range_eqb_refl|].
+    rewrite <- H3. apply range_eqb_refl.
+Qed.
+
+(* ---------------------------------------------------------------- 4. the two walks *)
+Definition seg_req (x y : text) : Prop := range_eqb (Some x) (Some y) = true.
+
+Lemma skip_common_split : forall s b s' b', skip_common s b = (s', b') ->
+  exists c cb, s = c ++ s' /\ b = cb ++ b' /\ Forall2 seg_req c cb.
+Proof.
+  induction s as [|x s IH]; intros b s' b' H.
+  - cbn [skip_common] in H. injection H as H1 H2. subst. exists [], []. repeat split. constructor.
+  - destruct b as [|y b].
+    + cbn [skip_common] in H. injection H as H1 H2. subst. exists [], []. repeat split. constructor.
+    + cbn [skip_common] in H.
+      destruct (range_eqb (Some x) (Some y)) eqn:E; cbn [andb] in H.
+      * match type of H with (if ?c then _ else _) = _ => destruct c end.
+        -- destruct (IH b s' b' H) as (c & cb & E1 & E2 & E3).
+           exists (x :: c), (y :: cb). rewrite E1, E2. repeat split. constructor; assumption.
+        -- injection H as H1 H2. subst. exists [], []. repeat split. constructor.
+      * injection H as H1 H2. subst. exists [], []. repeat split. constructor.
+Qed.
+
+Lemma seg_req_eq c : forall cb, forallb nonul c = true -> Forall2 seg_req c cb -> c = cb.
+Proof.
+  induction c as [|x c IH]; intros cb Hn H; inversion H as [|x' y l l' Hxy Hl]; subst; [reflexivity|].
+  cbn [forallb] in Hn. apply andb_true_iff in Hn. destruct Hn as [Hx Hc].
+  unfold seg_req in Hxy. rewrite (range_eqb_text x y Hx) in Hxy. apply text_eqb_true in Hxy.
+  rewrite Hxy, (IH l' Hc Hl). reflexivity.
+Qed.
+
+Definition dd : text := [46; 46].
+
+Lemma removelast_length {A} (l : list A) : l <> [] -> S (length (removelast l)) = length l.
+Proof.
+  intros Hne. destruct (exists_last Hne) as [l0 [x E]]. subst l.
+  rewrite removelast_last, app_length. cbn [length]. lia.
+Qed.
+
+Lemma parents_cons : forall l x, parents (x :: l) = repeat dd (length l).
+Proof.
+  induction l as [|y l IH]; intros x; [reflexivity|].
+  change (parents (x :: y :: l)) with (dd :: parents (y :: l)). rewrite (IH y). reflexivity.
+Qed.
+
+Lemma parents_repeat b : parents b = repeat dd (length (removelast b)).
+Proof.
+  destruct b as [|x l]; [reflexivity|]. rewrite parents_cons.
+  assert (x :: l <> []) as Hne by discriminate.
+  pose proof (removelast_length (x :: l) Hne) as E. change (length (x :: l)) with (S (length l)) in E.
+  apply eq_add_S in E. rewrite E. reflexivity.
+Qed.
+
+Lemma walk_push h a : forall p kept rest, forallb nodot p = true ->
+  rds_walk false h a kept (p ++ rest) = rds_walk false h a (rev p ++ kept) rest.
+Proof.
+  induction p as [|w p IH]; intros kept rest H; [reflexivity|].
+  cbn [forallb] in H. apply andb_true_iff in H. destruct H as [Hw Hp].
+  unfold nodot in Hw. apply andb_true_iff in Hw. destruct Hw as [H1 H2].
+  apply negb_true_iff in H1. apply negb_true_iff in H2.
+  cbn [app]. rewrite walk_false_cons, H1, H2. rewrite (IH (w :: kept) rest Hp).
+  cbn [rev]. rewrite <- app_assoc. reflexivity.
+Qed.
+
+Lemma skipn_S_tl {A} k (l : list A) : skipn (S k) l = skipn k (tl l).
+Proof. destruct l; [destruct k; reflexivity|reflexivity]. Qed.
+
+Lemma walk_pops h a : forall k kept nxt, nxt <> [] ->
+  rds_walk false h a kept (repeat dd k ++ nxt) = rds_walk false h a (skipn k kept) nxt.
+Proof.
+  induction k as [|k IH]; intros kept nxt Hne; [reflexivity|].
+  cbn [repeat app]. rewrite walk_false_cons.
+  change (seg_dot dd) with false. change (seg_dotdot dd) with true. cbv iota.
+  destruct (repeat dd k ++ nxt) as [|t l] eqn:E.
+  { apply app_eq_nil in E. destruct E as [_ E]. congruence. }
+  rewrite <- E. rewrite (IH (tl kept) nxt Hne). rewrite skipn_S_tl. reflexivity.
+Qed.
+
+(* removelast (c ++ b') ++ ".." x (|b'| - 1) ++ [guard] ++ s'  walks to  c ++ s' *)
+Lemma walk_roundtrip h a c b' s' : b' <> [] -> s' <> [] ->
+  forallb nodot c = true -> forallb nodot b' = true -> forallb nodot s' = true ->
+  rds_walk false h a []
+    (removelast (c ++ b') ++ parents b' ++ rest_segments (match parents b' with [] => true | _ => false end) s')
+  = c ++ s'.
+Proof.
+  intros Hb Hs Hc Hnb Hns.
+  rewrite (removelast_app c Hb). rewrite <- app_assoc.
+  rewrite (walk_push h a c [] _ Hc). rewrite app_nil_r.
+  rewrite (walk_push h a (removelast b') (rev c) _ (forallb_removelast _ _ Hnb)).
+  set (g := match parents b' with [] => true | _ => false end).
+  assert (rest_segments g s' <> []) as Hr.
+  { destruct s' as [|x s0]; [congruence|]. unfold rest_segments.
+    intros E. apply app_eq_nil in E. destruct E as [_ E]. discriminate E. }
+  rewrite parents_repeat.
+  rewrite (walk_pops h a _ _ _ Hr).
+  rewrite skipn_app. rewrite rev_length. rewrite Nat.sub_diag. cbn [skipn].
+  rewrite <- (rev_length (removelast b')) at 1. rewrite skipn_all. cbn [app].
+  destruct s' as [|x s0]; [congruence|]. unfold rest_segments.
+  destruct (g && (has_colon x || match x with [] => true | _ => false end)).
+  - cbn [app]. rewrite walk_false_cons. change (seg_dot [46]) with true. cbv iota.
+    rewrite (walk_fixed h a (x :: s0) (rev c) Hns). rewrite rev_involutive. reflexivity.
+  - cbn [app]. rewrite (walk_fixed h a (x :: s0) (rev c) Hns). rewrite rev_involutive. reflexivity.
+Qed.
